@@ -62,7 +62,7 @@ RtFrames == {F(c, m, l, f) :
                c \in {B("a.B"), B("a$b"), B("m@1/a.B$$L/0x1")} \cup (IF Rich THEN {E \o B(".C")} ELSE {}),
                m \in {B("<init>"), B("m")},
                l \in {D(0), U64Max} \cup (IF Rich THEN {D(1)} ELSE {}),
-               f \in {B("B.java"), B(""), B("x(y).java"), B("g") \o <<9>> \o B("at h.kt")} \cup (IF Rich THEN {B("<unknown>"), B("x(y)")} ELSE {})}
+               f \in {B("B.java"), B(""), B("x(y).java"), B("g") \o <<9>> \o B("at h.kt"), B("P (copy) [2].java")} \cup (IF Rich THEN {B("<unknown>"), B("x(y)")} ELSE {})}
 RtFrameSeqs == {<<>>} \cup {<<f>> : f \in RtFrames} \cup
                (IF Rich THEN {<<f, g>> : f, g \in {F(B("a.B"), B("m"), D(0), B("B.java")), F(B("a$b"), B("<init>"), U64Max, B(""))}} ELSE {})
 RtLevel1 == {Lv(e, fs) : e \in {<<>>} \cup {<<t>> : t \in RtThrowables}, fs \in RtFrameSeqs}
@@ -90,6 +90,7 @@ TextLines ==
    <<9>> \o B("at b.c.p(Unknown Source:7)"),   \* tab indented mapped frame
    <<9>> \o B("at keep.K.same(K.java:15)  "),  \* tab indented, trailing blanks: resolves to an equal frame, written canonically
    B("    at") \o <<194, 160>> \o B("a.m(SourceFile:2)"),   \* U+00A0 behind `at`: not a frame
+   B("    at a.m(SourceFile:2) ~[app.jar:1.0]"),              \* packaging data behind a frame: not a frame
    <<9>> \o B("at zz.Unknown.f(X.java:1)"),    \* the unmapped frame again, spelled differently (tab): lines that
    B("  at a.m(SourceFile:9)"),                \* parse to EQUAL frames but differ as text are each passed through as given
    <<194, 160>> \o B("at a.m(SourceFile:2)"),  \* indented with U+00A0: str::trim strips every Unicode White_Space character
@@ -117,7 +118,8 @@ TyFrames == {F(B("a"), B("m"), D(2), B("SourceFile")),     \* -> 1
              F(B("zz.U"), B("f"), D(1), B("X.java")),      \* unknown class
              F(B("b.c"), B("p"), D(0), B("Y")),            \* no range entry, class-level file
              F(B("a"), B("q"), D(6), B("SourceFile")),     \* -> 2, the second of which is itself a key (keep.K.outer)
-             F(B("app//a"), B("m"), D(2), B("SourceFile"))} \* a class that merely ENDS in a mapped name: unknown
+             F(B("app//a"), B("m"), D(2), B("SourceFile")), \* a class that merely ENDS in a mapped name: unknown
+             F(B("a"), B("q"), D(6), B("Callee.java"))}     \* the frame's file names the inlined callee's class: still no file
 \* runs of identical frames (deep recursion): every frame of a run is remapped on its own
 TyFrameSeqs == {<<>>} \cup {<<f>> : f \in TyFrames}
                \cup {<<f, g>> : f \in TyFrames, g \in (IF Rich THEN TyFrames ELSE {F(B("a"), B("n"), D(4), B("SourceFile")),
